@@ -685,7 +685,7 @@ func randVal(c *core.Ctx, small bool) val {
 func gen(c *core.Ctx) error {
 	c.Rule("encode: random and boundary value sequences (chars, integers of every width, strings, byte strings, doubles as 64-bit patterns) through the real Message writer on a recording stream, compared frame by frame with the model writer and byte for byte with an independent format encoder (math/big for doubles); decode: the encoded bytes re-cut at every single position (short sequences, every special double) and random multi-cuts, plus malformed inputs and integer pairs no encoder produces, through the real Message reader, compared op by op (also after an error result) with the model reader; oracles on the implementation: layout = format definition, decoded = sent (doubles: |decoded-sent| <= |sent|*2^-30 in exact rationals and bit-equal to the math/big reference decoder), EOM only on the last frame. non-trivial = decode case in which every Get succeeded, or encode case; distinct by (mode, values, cuts)")
 	c.Assume("float->int32 conversion of NaN/Inf is implementation-defined in Go; the model has the amd64 semantics (CVTTSD2SL, -2^31) and NaN/Inf cases are compared only when GOARCH=amd64 (this run: " + runtime.GOARCH + ")")
-	nSeq := 60
+	nSeq := 48
 	nBig := 6
 	if !c.Quick() {
 		nSeq, nBig = 600, 40
